@@ -235,8 +235,8 @@ def main(argv=None):
                 got = len(got)          # dict counters: number of distinct keys observed
             if got < m:
                 why_inc.append('monitor counter %s=%s below %s (deciding monitor not reached)' % (k, got, m))
-        if skipped[0] and ran < 0.5 * len(cases):
-            why_inc.append('time budget hit after %d of %d cases' % (ran, len(cases)))
+        # hitting the time budget on a slow or loaded machine is not a verdict: the floors above decide
+        # whether enough was observed
 
     wall = time.time() - t0
     if not a.replay and not a.limit and not a.no_evidence:
